@@ -15,7 +15,10 @@ RULE = (
     "every step. One evaluation = one step at whose end live answers (size, matrix, get_value, get_cell, "
     "get_row, row widths, get_column_values, get_column) were compared with the fresh parse and with O-TABXML, "
     "and _tmap/_cmap/_rmap and every cached Row/Cell/Column wrapper were compared with the XML. Class = C01 "
-    "situation class x set of caches warmed; non-trivial = repeated target/argument or any warm cache."
+    "situation class x set of caches warmed; non-trivial = repeated target/argument or any warm cache. "
+    "Besides: tables holding another generated table in one of their cells; the inner table reached through "
+    "the outer table, row and cell (get_elements, get_element, xpath) must answer like a fresh parse of its own "
+    "XML and like O-TABXML."
 )
 SHARDS = {"quick": 16, "thorough": 16}
 TIMEOUT = {"quick": 300, "thorough": 5400}
@@ -50,7 +53,73 @@ def _on_step(res, rng):
     return on_step
 
 
+def nested_case(case, res=None):
+    """A table that holds another table in one of its cells (legal in text documents): the inner table
+    reached through the outer one must answer like a fresh parse of its own XML.
+    case = {"outer": recipe, "inner": recipe, "at": [x, y]}"""
+    from odfdo import Cell, Element
+
+    from ..oracles import tabxml
+
+    outer = TL.build_table(case["outer"], name="outer")
+    inner = TL.build_table(case["inner"], name="inner")
+    W, H = outer.size
+    x, y = case["at"][0] % max(W, 1), case["at"][1] % max(H, 1)
+    cell = Cell()
+    cell.append(inner)
+    outer.set_cell((x, y), cell)
+    out = []
+    routes = {
+        "outer.get_elements(descendant::table:table)": lambda: outer.get_elements("descendant::table:table"),
+        "row.get_elements(descendant::table:table)": lambda: outer.get_row(y, clone=False).get_elements("descendant::table:table"),
+        "cell.get_elements(table:table)": lambda: outer.get_cell((x, y), clone=False).get_elements("table:table"),
+        "outer.get_element": lambda: [outer.get_element("descendant::table:table")],
+        "outer.xpath": lambda: outer.xpath("descendant::table:table"),
+    }
+    for route, fn in routes.items():
+        if res is not None:
+            res.judge()
+            res.cls(("nested-table", route), True)
+        try:
+            got = fn()
+            if len(got) != 1:
+                out.append((f"nested:{route}:count", {"count": len(got)}))
+                continue
+            live = got[0]
+            fresh = Element.from_tag(live.serialize(with_ns=True))
+            w, rows = tabxml.expand(tabxml.parse(live.serialize(with_ns=True)))
+            exp_vals = [list(r) + [None] * (w - len(r)) for r in rows]
+            if tuple(live.size) != tuple(fresh.size) or tuple(live.size) != (w, len(rows)):
+                out.append((f"nested:{route}:size", {"live": list(live.size), "fresh": list(fresh.size), "xml": [w, len(rows)]}))
+            elif not TL.matrix_equal(live.get_values(), fresh.get_values()) or not TL.matrix_equal(live.get_values(), exp_vals):
+                out.append((f"nested:{route}:values", {"live": live.get_values(), "fresh": fresh.get_values()}))
+            # the rows of the inner table, reached through the outer one
+            for r_live, r_fresh in zip(live.get_rows(), fresh.get_rows()):
+                if r_live.width != r_fresh.width or not TL.matrix_equal([r_live.get_values()], [r_fresh.get_values()]):
+                    out.append((f"nested:{route}:row", {"live": r_live.get_values(), "fresh": r_fresh.get_values()}))
+                    break
+        except Exception as e:
+            out.append((f"nested:{route}:raised:{type(e).__name__}", {"exc": repr(e)}))
+    # the outer table is not disturbed by what it holds
+    fresh_outer = Element.from_tag(outer.serialize(with_ns=True))
+    if tuple(outer.size) != tuple(fresh_outer.size) or not TL.matrix_equal(outer.get_values(), fresh_outer.get_values()):
+        out.append(("nested:outer-differs-from-fresh-parse", {"live": list(outer.size), "fresh": list(fresh_outer.size)}))
+    return out
+
+
 def run(ctx, res):
+    for c in range(20 if ctx.quick else 400):
+        rng = ctx.rng("nested", c)
+        vals = TL.Vals()
+        case = {"nested": {"outer": TL.gen_recipe(rng, vals), "inner": TL.gen_recipe(rng, vals), "at": [rng.randrange(50), rng.randrange(50)]}}
+        try:
+            v = nested_case(case["nested"], res)
+        except Exception as e:
+            import traceback
+
+            v = [(f"nested:harness-raised:{type(e).__name__}", {"tb": traceback.format_exc()[-800:]})]
+        for m, d in v[:1]:
+            res.violation(m, d, {"case": case})
     for c in range(CASES[ctx.tier]):
         rng = ctx.rng(c)
         vals = TL.Vals()
@@ -82,6 +151,8 @@ def replay(case):
     import random
 
     rng = random.Random(0)
+    if "nested" in case["case"]:
+        return [{"mechanism": m, "detail": d} for m, d in nested_case(case["case"]["nested"])]
 
     def on_step(i, t, g, op, info):
         return TH.check_coherence(t, rng, doc=getattr(t, "_vf_doc", None))
